@@ -23,6 +23,10 @@ def generate(rng: random.Random, tier: str):
     nk = 12 if tier == 'thorough' else 3
     for kind in zoo_kernels.KERNEL_KINDS:
         cases += zoo_kernels.gen_configs(kind, rng, nk * (3 if kind == 'wavelet' else 1))
+    # operators *derived* from elementary ones (sum, composition, scaling, .H, stacking), with leaves whose adjoint may hand back its argument
+    for _ in range(200 if tier == 'thorough' else 40):
+        cases.append({'kind': 'derived', 'form': rng.choice(DERIVED_FORMS), 'n': rng.randint(2, 4), 'complex': rng.random() < 0.6,
+                      'mixed_v': False, 'seed': rng.randrange(1 << 30)})
     if tier == 'thorough':
         for fam in zoo_kernels.WAVELETS_ORTHO + zoo_kernels.WAVELETS_BIORTHO:
             for level in (1, 2):
@@ -74,7 +78,67 @@ def run_kernel(cfg, drv) -> Outcome:
                    sample={**cfg, 'matrix_shape': list(F.shape), 'adjoint_deviation': dev})
 
 
+DERIVED_FORMS = ['id+B', 'id+B+C', 'B+id+C', 'B+C', '(id+B).H', 'id@B+C', 's*(id+B)', 'zeropad0+B', '(B+C)@(id+B)', 'rearr+B', 't*id+B', 'stack']
+
+
+def run_derived(cfg, drv) -> Outcome:
+    """<A u, v> = <u, A^H v> for derived operators: dense matrices of forward and adjoint from fresh basis vectors, and one pair (u, v)
+    whose v is *reused* after the adjoint call (the identity is about the v the caller holds)"""
+    import torch
+    from mrpro.operators import EinsumOp, IdentityOp, LinearOperatorMatrix, ZeroPadOp
+    from mrpro.operators.RearrangeOp import RearrangeOp
+
+    rng = random.Random(cfg['seed'])
+    n = cfg['n']
+    cd = torch.complex128 if cfg['complex'] else torch.float64
+
+    def mat():
+        m = torch.tensor([[rng.randint(-3, 3) for _ in range(n)] for _ in range(n)], dtype=torch.float64)
+        if cfg['complex']:
+            m = torch.complex(m, torch.tensor([[float(rng.randint(-3, 3)) for _ in range(n)] for _ in range(n)], dtype=torch.float64))
+        return m
+
+    B, C, Id = EinsumOp(mat()), EinsumOp(mat()), IdentityOp()
+    form = cfg['form']
+    if form == 'stack':
+        Mx = LinearOperatorMatrix([[Id + B, C], [B, Id]])
+        fwd = lambda x: torch.cat(Mx(x[:n], x[n:]))  # noqa: E731
+        adj = lambda y: torch.cat(Mx.adjoint(y[:n], y[n:]))  # noqa: E731
+        dim_in = dim_out = 2 * n
+    else:
+        A = {'id+B': lambda: Id + B, 'id+B+C': lambda: Id + B + C, 'B+id+C': lambda: B + Id + C, 'B+C': lambda: B + C, '(id+B).H': lambda: (Id + B).H,
+             'id@B+C': lambda: Id @ B + C, 's*(id+B)': lambda: (2 - 1j if cfg['complex'] else 2.0) * (Id + B),
+             'zeropad0+B': lambda: ZeroPadOp(dim=(-1,), original_shape=(n,), padded_shape=(n,)) + B, '(B+C)@(id+B)': lambda: (B + C) @ (Id + B),
+             'rearr+B': lambda: RearrangeOp('n -> n') + B, 't*id+B': lambda: torch.arange(1, n + 1).to(cd) * Id + B}[form]()
+        fwd = lambda x: A(x)[0]  # noqa: E731
+        adj = lambda y: A.adjoint(y)[0]  # noqa: E731
+        dim_in = dim_out = n
+    eye_in, eye_out = torch.eye(dim_in, dtype=cd), torch.eye(dim_out, dtype=cd)
+    F = torch.stack([fwd(eye_in[:, j].clone()).to(cd) for j in range(dim_in)], 1)
+    AH = torch.stack([adj(eye_out[:, j].clone()).to(cd) for j in range(dim_out)], 1)
+    viol = None
+    dev = float((F.conj().T - AH).abs().max())
+    name = f'derived operator {form} (n={n}, {"complex" if cfg["complex"] else "real"}, seed {cfg["seed"]})'
+    if not dev <= 1e-9:
+        viol = {'signature': f'adjoint:derived:{form}', 'what': f'{name}: adjoint() is not the adjoint of forward(): max deviation of the matrices {dev:.3e}'}
+    u = torch.tensor([complex(rng.randint(-4, 4), rng.randint(-4, 4) if cfg['complex'] else 0) for _ in range(dim_in)]).to(cd)
+    v = torch.tensor([complex(rng.randint(-4, 4), rng.randint(-4, 4) if cfg['complex'] and not cfg['mixed_v'] else 0) for _ in range(dim_out)])
+    v = v.to(cd) if not cfg['mixed_v'] else v.real.to(torch.float64)
+    v_before = v.clone()
+    ahv = adj(v)
+    lhs = torch.vdot(fwd(u).to(torch.complex128), v.to(torch.complex128))  # v as the caller holds it after the adjoint call
+    rhs = torch.vdot(u.to(torch.complex128), ahv.to(torch.complex128))
+    want = torch.vdot((F @ u).to(torch.complex128), v_before.to(torch.complex128))
+    if viol is None and (abs(complex(lhs - rhs)) > 1e-9 * (1 + abs(complex(want))) or abs(complex(rhs - want)) > 1e-9 * (1 + abs(complex(want)))):
+        viol = {'signature': f'adjoint:derived:{form}',
+                'what': f'{name}: <A u, v> = {complex(lhs):.6g} and <u, A^H v> = {complex(rhs):.6g} for the v the caller holds (with the matrix of A and v before the call: '
+                        f'{complex(want):.6g}); v changed by the adjoint call: {not torch.equal(v, v_before)}'}
+    return Outcome(key=('derived', form, n, cfg['complex'], cfg['mixed_v']), viol=viol, branches=[f'derived:{form}'], sample=cfg)
+
+
 def run(cfg, drv) -> Outcome:
+    if cfg['kind'] == 'derived':
+        return run_derived(cfg, drv)
     if cfg['kind'] in zoo_kernels.KERNEL_KINDS:
         return run_kernel(cfg, drv)
     built, F, A, Fm, Am, notes = _ops.matrices(cfg, drv)
@@ -87,4 +151,6 @@ def run(cfg, drv) -> Outcome:
 
 
 def neighbours(cfg, rng):
+    if cfg['kind'] == 'derived':
+        return []
     return [zoo.gen_config(cfg['kind'], rng) for _ in range(30)]
